@@ -181,6 +181,32 @@ func reopen(wlFile, dir, mode, out string) {
 	n.Close()
 }
 
+func reopenDump(wlFile, dir, mode, out string) {
+	var w Workload
+	b, _ := os.ReadFile(wlFile)
+	json.Unmarshal(b, &w)
+	res := &ReopenResult{}
+	defer func() {
+		if r := recover(); r != nil {
+			res.Err = fmt.Sprint("panic: ", r)
+			jb, _ := json.Marshal(res)
+			os.WriteFile(out, jb, 0o644)
+			os.Exit(3)
+		}
+	}()
+	var n *chainsim.Node
+	if mode == "lib" {
+		n = chainsim.OpenNode(dir, w.Params, chainsim.NodeOpts{BDB: bdbOpts(&w)})
+	} else {
+		n = chainsim.OpenNode(dir, w.Params, chainsim.NodeOpts{BDB: bdbOpts(&w), DoNotRescan: true})
+		clientStyleCatchUp(n.Ch)
+	}
+	res.Opened = dumpState(n)
+	jb, _ := json.Marshal(res)
+	os.WriteFile(out, jb, 0o644)
+	n.Close()
+}
+
 // clientStyleCatchUp re-implements what client/main.go does at start-up with blocks found on disk
 // beyond the snapshot (do_the_blocks -> LocalAcceptBlock -> CommitBlock); package main cannot be
 // imported, this is the only place where harness code stands in for client code.
@@ -491,6 +517,10 @@ func Main() {
 		case "reopen":
 			reopen(os.Args[2], os.Args[3], os.Args[4], os.Args[5])
 			return
+		case "dump":
+			// fresh process: open (after a clean shutdown of the recovery process) and dump the state
+			reopenDump(os.Args[2], os.Args[3], os.Args[4], os.Args[5])
+			return
 		case "debugtrunc":
 			var seed int64
 			fmt.Sscan(os.Args[2], &seed)
@@ -735,6 +765,36 @@ func judge(run *vlib.Run, pl *plan, wlFile, dir, mode, point string, crashOp int
 		run.Violation("final-utxo-differs/"+mode+"/"+pname, "after feeding the remaining blocks the UTXO set differs from the uninterrupted run: "+d, wit)
 		return
 	}
+	// 4. the recovery process shut down cleanly: one more restart must reproduce the final state exactly
+	// (blocks stored after the recovery must not have damaged what was on disk before)
+	out2 := dir + ".result2"
+	defer os.Remove(out2)
+	res2 := runBin([]string{"dump", wlFile, dir, mode, out2}, nil, 10*time.Minute)
+	var rr2 ReopenResult
+	if b, err := os.ReadFile(out2); err == nil {
+		json.Unmarshal(b, &rr2)
+	}
+	if res2.TimedOut {
+		run.Inconclusive("second-restart watchdog (%s, %s)", mode, point)
+		return
+	}
+	if res2.ExitCode != 0 || rr2.Opened == nil {
+		wit["output_tail"] = vlib.Tail(res2.Out, 2500)
+		wit["err"] = rr2.Err
+		run.Violation("second-restart-fails/"+mode+"/"+pname, fmt.Sprintf("after recovery, feeding the remaining blocks and a clean shutdown, the next restart failed (exit %d %s)", res2.ExitCode, rr2.Err), wit)
+		return
+	}
+	if rr2.Opened.Tip != pl.finalTip.String() {
+		wit["second_restart_tip"] = rr2.Opened.Tip
+		run.Violation("second-restart-state-differs/"+mode+"/"+pname, "after recovery, feeding the remaining blocks and a clean shutdown, the next restart does not reproduce the final tip", wit)
+		return
+	}
+	if d := diffLists(rr2.Opened.Utxo, finalWant); d != "" {
+		wit["utxo_diff"] = d
+		run.Violation("second-restart-state-differs/"+mode+"/"+pname, "after recovery and a clean shutdown the next restart does not reproduce the final UTXO set: "+d, wit)
+		return
+	}
+	run.Inc("second_restarts_ok")
 	run.Inc("recoveries_ok")
 	if run.WantSample() {
 		run.Sample(map[string]interface{}{"mode": mode, "crash_point": point, "crash_op": crashOp, "reopened_height": rr.Opened.Height, "final_height": rr.Final.Height})
